@@ -16,13 +16,19 @@
      total_memory is the uint64 sum of the local memories at or below an object.
    The model follows diff.c after the fixes 986f5b5 (name on one side only => TOO_COMPLEX), ad7dbbc (cancel path
    undoes last applied first) and 50d1249 (distances with per-object types compared field by field).
-   What is NOT proved here (left to the differential tie and the C-side oracles of engine `diff`): the XML round trip.
+   The XML round trip ("the diff survives diff export/load as XML with the same refname") is proved over the model of the diff
+   part of topology-xml.c (Hw.Io.XmlDiff: hwloc__xml_export_diff, hwloc__xml_import_diff_one, hwloc__xml_import_diff and
+   their nolibxml / libxml callers at the token level, the nolibxml text layout and attribute scanner at the byte level):
+   section "diff XML export / load" at the end of this file.
    REVERSE application in list order is proved for `DistinctSlots` lists (C16_reverse_apply; false without the
    restriction: C16_reverse_apply_chain_witness) and every built diff is one (C16_build_distinct_slots);
    apply ∘ build is proved over whole trees (C16_apply_build). -/
 import Hw.Attr.DiffLemmas
 import Hw.Attr.DiffCommute
 import Hw.Attr.DiffBuildApply
+import Hw.Io.XmlDiffLemmas
+import Hw.Attr.DiffXmlLink
+import Hw.Io.XmlDiffPerm
 namespace Hw.Props.C16
 open Hw.Diff
 variable {σ : Type} [DecidableEq σ]
@@ -284,5 +290,162 @@ example :
     r.1 = -3 ∧ r.2.flat.map (·.infos) = [[(7, 1)]] := by decide
 /-- former F13d input: identical topologies holding a distances structure with per-object types: empty diff -/
 example : build (topo (leaf none []) [(0, true)]) (topo (leaf none []) [(0, true)]) = (0, []) := by decide
+
+/-! ## diff XML export / load (model: Hw.Io.XmlDiff, lemmas: Hw.Io.XmlDiffLemmas)
+
+   `E` = `Entry Bytes` (strings are byte lists); `Exportable e` = an OBJ_ATTR entry of sub-type SIZE / NAME / INFO without NULL
+   string whose key fits the C types (`int obj_depth`, `unsigned obj_index`); `Backend` = which parser reads the text. -/
+section DiffXml
+open Hw.XmlDiff Hw.Xml
+
+/-- P0 diff_xml_roundtrip: for EVERY list of exportable entries (any byte strings, also empty ones and ones full of characters
+    that need escaping; any 64-bit values; any int depth incl. the negative special depths; any unsigned index) and every
+    refname (or none), exporting succeeds and loading the exported document through either back end returns 0 with exactly
+    the same entries in the same order and the same refname, and frees nothing. -/
+theorem C16_diffxml_roundtrip (be : Backend) (ref : Option Bytes) (l : List E) (h : ∀ e ∈ l, Exportable e) :
+    ∃ d, exportDoc ref l = .ok d ∧ importDoc be d = { ret := 0, diff := l, ref := ref, freed := [] } :=
+  roundtrip be ref l h
+
+/-- ... also through the BYTES of the start tags for the nolibxml pair: the attribute scanner of the nolibxml importer
+    (Hw.Xml.scanAttrs = the next_attr loop with its un-escaping copy) applied to the text new_prop wrote (Hw.Xml.renderAttrs =
+    escaping) gives every token back, for NUL-free strings (C strings); hence loading what was rescanned from the text is the
+    identity as well. -/
+theorem C16_diffxml_roundtrip_bytes (ref : Option Bytes) (l : List E) (h : ∀ e ∈ l, Exportable e)
+    (hr : ∀ r, ref = some r → NulFree r) (hn : ∀ e ∈ l, EntryNulFree e) :
+    ∃ d, exportDoc ref l = .ok d ∧ rescan d = d ∧
+      importDoc .nolibxml (rescan d) = { ret := 0, diff := l, ref := ref, freed := [] } := by
+  obtain ⟨d, hd, hi⟩ := roundtrip .nolibxml ref l h
+  have hs := rescan_exportDoc ref l d hr hn hd
+  exact ⟨d, hd, hs, by rw [hs]; exact hi⟩
+
+/-- the public export entry points refuse (EINVAL, nothing written) exactly the lists that hold a TOO_COMPLEX entry -/
+theorem C16_diffxml_export_too_complex (ref : Option Bytes) (l : List E) :
+    exportDoc ref l = .einval ↔ l.any Entry.isTC = true := by
+  unfold exportDoc
+  by_cases h : l.any Entry.isTC = true
+  · simp [h]
+  · simp only [h, Bool.false_eq_true, if_false, iff_false]
+    cases exportEls l <;> simp
+
+/-- the exporter writes one `<diff>` element per entry, in list order (the i-th element carries the attributes of the i-th entry) -/
+theorem C16_diffxml_export_order (ref : Option Bytes) (l : List E) (d : Doc) (h : exportDoc ref l = .ok d) :
+    d.root = rootAttrs ref ∧ l.map exportEntry = d.els.map (fun el => some el.2) ∧ ∀ el ∈ d.els, el.1 = nmDiff := by
+  unfold exportDoc at h
+  split at h
+  · cases h
+  · cases hels : exportEls l with
+    | none => simp [hels] at h
+    | some els =>
+      simp [hels] at h
+      subst h
+      exact ⟨rfl, exportEls_positional l els hels⟩
+
+/-- P0 import_total: the importer accepts or rejects EVERY token-level document (any attribute names, values, repetitions,
+    element names) without partial state: either it returns 0, frees nothing and hands out every entry it linked; or it
+    returns -1, leaves `*firstdiffp` NULL and `*refnamep` untouched, and every entry it had linked is handed to
+    hwloc_topology_diff_destroy. -/
+theorem C16_diffxml_import_total (be : Backend) (d : Doc) :
+    ((importDoc be d).ret = 0 ∧ (importDoc be d).freed = [] ∧ (importDoc be d).diff = linked be d) ∨
+    ((importDoc be d).ret = -1 ∧ (importDoc be d).diff = [] ∧ (importDoc be d).ref = none ∧
+      (importDoc be d).freed = linked be d) :=
+  importDoc_cases be d
+
+/-- P0 order: an accepted document yields exactly the contributions of its elements in DOCUMENT ORDER (the C appends at
+    lastdiff); elements that are silently ignored (no `type`, a type other than OBJ_ATTR, a missing mandatory attribute)
+    contribute nothing and do not disturb the order of the others. -/
+theorem C16_diffxml_import_order (be : Backend) (d : Doc) (h : (importDoc be d).ret = 0) :
+    (importDoc be d).diff = d.els.filterMap elEntry :=
+  importDoc_ok_order be d h
+
+/-- ... and on the error path what was linked (and is freed) are the contributions of the elements BEFORE the offending one -/
+theorem C16_diffxml_import_prefix (els : List (Bytes × AttrL)) (acc : List E) :
+    ∃ pre suf, els = pre ++ suf ∧ (importEls acc els).2 = acc ++ pre.filterMap elEntry ∧
+      ((importEls acc els).1 = true → suf = []) :=
+  importEls_order els acc
+
+/-- the clause of the property as worded: "if hwloc_topology_diff_build(A, B) returns 0 ... the diff survives diff export/load as
+    XML with the same refname" — for every pair of topologies over byte strings whose built entries address keys inside the C
+    types (every real topology: `int depth`, `unsigned logical_index`), through either back end. -/
+theorem C16_diffxml_build_roundtrip (be : Backend) (ref : Option Bytes) (A B : Topo Bytes) (h0 : (build A B).1 = 0)
+    (hk : ∀ e ∈ (build A B).2, KeyInRange e.key) :
+    ∃ d, exportDoc ref (build A B).2 = .ok d ∧
+      importDoc be d = { ret := 0, diff := (build A B).2, ref := ref, freed := [] } :=
+  roundtrip be ref _ (build_exportable A B h0 hk)
+
+/-- ... and when it returns 1 the export entry points refuse the list (a TOO_COMPLEX entry is in it) -/
+theorem C16_diffxml_build_ret1_einval (ref : Option Bytes) (A B : Topo Bytes) (h1 : (build A B).1 = 1) :
+    exportDoc ref (build A B).2 = .einval := by
+  rw [C16_diffxml_export_too_complex, build_tc, h1]; decide
+
+/-- the importer does not depend on the ORDER of the attributes of an element as long as no attribute name is repeated
+    (the exporter's order is one of many accepted ones) -/
+theorem C16_diffxml_import_attr_order {a b : AttrL} (hp : a.Perm b) (hn : (a.map (·.1)).Nodup) :
+    importOne a = importOne b :=
+  importOne_perm hp hn
+
+/-! non-vacuity and concrete behaviour of the importer model -/
+def goodEl : Bytes × AttrL := (nmDiff, [(nmType, str "0"), (nmDepth, str "1"), (nmIndex, str "2"), (nmAType, str "1"),
+  (nmOld, str "a"), (nmNew, str "b")])
+def goodE : E := .objAttr (1, 2) (.name (some (str "a")) (some (str "b")))
+
+/-- a list inside the hypotheses of the round trip: escaping-heavy strings, an empty string, UINT64_MAX, a special depth -/
+example :
+    let l : List E := [.objAttr (-3, 4294967295) (.size 0#64 18446744073709551615#64),
+      .objAttr (2, 0) (.name (some (str "a<b>&\"c'")) (some [])), .objAttr (-2147483648, 7) (.info (str "K\n") (str "&amp;") (str "\t"))]
+    (∀ e ∈ l, Exportable e) ∧ (∀ e ∈ l, EntryNulFree e) := by
+  refine ⟨?_, ?_⟩ <;> intro e he <;> simp at he <;> rcases he with rfl | rfl | rfl
+  all_goals first
+    | (simp [Exportable, KeyInRange])
+    | (simp [EntryNulFree, NulFree]; try decide)
+/-- the same computed: both back ends read the exported tokens back -/
+example :
+    let l : List E := [.objAttr (-3, 4294967295) (.size 0#64 77#64), .objAttr (2, 0) (.name (some (str "a<b>")) (some []))]
+    (match exportDoc (some (str "r&f")) l with
+     | .ok d => decide (importDoc .libxml d = ⟨0, l, some (str "r&f"), []⟩) &&
+                decide (importDoc .nolibxml (rescan d) = ⟨0, l, some (str "r&f"), []⟩)
+     | _ => false) = true := by decide +kernel
+/-- a pair of topologies over byte strings inside the hypotheses of C16_diffxml_build_roundtrip (a rename with characters
+    that need escaping and a local-memory change to UINT64_MAX) -/
+example :
+    let nd (nm : Bytes) (m : Mem) : Obj Bytes := .mk ⟨-3, 0, [(0, 0)], true, [], [], some nm, [], m, m⟩ [] [] [] []
+    let mk (nm : Bytes) (m : Mem) : Topo Bytes :=
+      ⟨.mk ⟨0, 0, [], false, [], [], some (str "Machine"), [], 0, m⟩ [] [nd nm m] [] [], 2, [], [], [], [], []⟩
+    (build (mk (str "a<b") 5) (mk (str "\"&") 18446744073709551615)).1 = 0 ∧
+    (build (mk (str "a<b") 5) (mk (str "\"&") 18446744073709551615)).2.length = 2 ∧
+    ∀ e ∈ (build (mk (str "a<b") 5) (mk (str "\"&") 18446744073709551615)).2, KeyInRange e.key := by
+  refine ⟨by decide +kernel, by decide +kernel, ?_⟩
+  have : (build (Topo.mk (.mk ⟨0, 0, [], false, [], [], some (str "Machine"), [], 0, 5⟩ []
+      [.mk ⟨-3, 0, [(0, 0)], true, [], [], some (str "a<b"), [], 5, 5⟩ [] [] [] []] [] []) 2 [] [] [] [] [])
+      (Topo.mk (.mk ⟨0, 0, [], false, [], [], some (str "Machine"), [], 0, 18446744073709551615⟩ []
+      [.mk ⟨-3, 0, [(0, 0)], true, [], [], some (str "\"&"), [], 18446744073709551615, 18446744073709551615⟩ [] [] [] []] [] []) 2 [] [] [] [] [])).2 =
+      [.objAttr (-3, 0) (.name (some (str "a<b")) (some (str "\"&"))), .objAttr (-3, 0) (.size 5 18446744073709551615)] := by
+    decide +kernel
+  intro e he
+  simp only [] at he
+  rw [this] at he
+  simp at he
+  rcases he with rfl | rfl <;> simp [Entry.key, KeyInRange]
+/-- C16_diffxml_import_attr_order applies to the exporter's own attribute lists (no repeated name) ... -/
+example : ([(nmType, str "0"), (nmDepth, str "1"), (nmIndex, str "2")] : AttrL).Perm [(nmDepth, str "1"), (nmType, str "0"), (nmIndex, str "2")] ∧
+    (([(nmType, str "0"), (nmDepth, str "1"), (nmIndex, str "2")] : AttrL).map (·.1)).Nodup :=
+  ⟨List.Perm.swap _ _ _, by decide⟩
+/-- ... and the hypothesis is needed: with a repeated name the last occurrence wins -/
+example : importOne (goodEl.2 ++ [(nmDepth, str "-5")]) ≠ importOne ((nmDepth, str "-5") :: goodEl.2) := by decide +kernel
+/-- TOO_COMPLEX anywhere: EINVAL -/
+example : exportDoc none [.objAttr (0, 0) (.size 1#64 2#64), .tooComplex (0, 0)] = .einval := by decide +kernel
+/-- what the importer makes of damaged elements: unknown attribute => -1 and the already linked entry is freed;
+    missing mandatory attribute / other type number => ignored; a repeated attribute: the last one wins (nolibxml) or the
+    document is rejected (libxml2); `atoi("4294967296") = 0` is OBJ_ATTR; hex / octal SIZE values -/
+example : importDoc .nolibxml ⟨[], [goodEl, (nmDiff, [(str "foo", str "1")])]⟩ = ⟨-1, [], none, [goodE]⟩ := by decide +kernel
+example : importDoc .nolibxml ⟨[], [(nmDiff, [(nmType, str "0"), (nmDepth, str "1")]), goodEl, (nmDiff, [(nmType, str "1")]),
+    (nmDiff, [])]⟩ = ⟨0, [goodE], none, []⟩ := by decide +kernel
+example : importDoc .nolibxml ⟨[(nmRefname, str "x"), (nmRefname, str "y")], [(nmDiff, goodEl.2 ++ [(nmDepth, str "-5")])]⟩
+    = ⟨0, [.objAttr (-5, 2) (.name (some (str "a")) (some (str "b")))], some (str "y"), []⟩ := by decide +kernel
+example : importDoc .libxml ⟨[], [(nmDiff, goodEl.2 ++ [(nmDepth, str "-5")])]⟩ = ⟨-1, [], none, []⟩ := by decide +kernel
+example : importDoc .libxml ⟨[], [(str "object", goodEl.2)]⟩ = ⟨-1, [], none, []⟩ := by decide +kernel
+example : importDoc .libxml ⟨[], [(nmDiff, [(nmType, str "4294967296"), (nmDepth, str "x"), (nmIndex, str "-1"), (nmAType, str "0"),
+    (nmOld, str "0x1f"), (nmNew, str "017")])]⟩ = ⟨0, [.objAttr (0, 4294967295) (.size 31#64 15#64)], none, []⟩ := by decide +kernel
+
+end DiffXml
 
 end Hw.Props.C16
